@@ -975,7 +975,13 @@ func (d *Decoder) processPropertyElt(ectx evaluationContext, startElement xml.St
 				tokenMetadata, _ = d.tokenMetadata()
 			}
 
-			s, err := d.processNodeElt(ectx, tokenT, tokenMetadata)
+			// xml:base and xml:lang of the property element are in scope for the node element inside it
+			nectx, _, _, err := d.processCommonAttr(ectx, startElement, startElementMetadata)
+			if err != nil {
+				return err
+			}
+
+			s, err := d.processNodeElt(nectx, tokenT, tokenMetadata)
 			if err != nil {
 				return fmt.Errorf("nodeElement: %w", err)
 			}
@@ -1001,7 +1007,7 @@ func (d *Decoder) processPropertyElt(ectx evaluationContext, startElement xml.St
 			d.statements = append(d.statements, t)
 
 			if rdfID != nil {
-				d.addReify(ectx, *rdfID, d.statements[len(d.statements)-1])
+				d.addReify(nectx, *rdfID, d.statements[len(d.statements)-1])
 			}
 
 			found = tokenT.Name.Space + tokenT.Name.Local
